@@ -320,7 +320,8 @@ Before /repo commit 73760b5 (finding F50) `get_entry` took the staging snapshot 
 built the entry from THAT snapshot and inserted it if the slot was still vacant (`getFetch`), while
 another task's `insert`/`remove` (`write`) could run between the two.  Since 73760b5 the insert is
 skipped when a write happened since before the snapshot (a generation counter as in the wide cache);
-that check is not modelled here – these two functions exist only for the historical witness. -/
+that check is not modelled here (it is in `Model/SetCacheConc.lean`, the multi-task model with multi-step operations) – these two
+functions exist only for the historical witness. -/
 
 def getSnap (s : State) : Option Snapshot :=
   match s.entry with
